@@ -421,6 +421,12 @@ def feature_charts():
     i.trans.append(Trans([a2], content=True)); a2.trans.append(Trans([q12, q22], event=True)); r.initial_attr = [a]
     q12.trans.append(Trans([a1], event=True)); p.initial_attr = None
     out.append(Chart(r, 'feat_initial_multitarget'))
+    # 6. transition whose domain is the LAST child of a compound that is a (non-last) region of a parallel
+    r = Node('scxml'); p = r.add(Node('parallel')); a = p.add(Node('state')); a0 = a.add(Node('state')); a1 = a.add(Node('state')); a11 = a1.add(Node('state')); a12 = a1.add(Node('state'))
+    b = p.add(Node('state')); b1 = b.add(Node('state')); b2 = b.add(Node('state'))
+    a11.trans.append(Trans([a12], event=True)); a0.trans.append(Trans([a1], event=True)); b1.trans.append(Trans([b2], event=True, cond=True)); a12.trans.append(Trans([a0], event=True))
+    for n in (a, a1, a11, a12, b, b1, b2): n.n_onentry = 1; n.n_onexit = 1
+    out.append(Chart(r, 'feat_last_child_domain'))
     return out
 
 
